@@ -5,7 +5,7 @@
 From Coq Require Import ZArith List Bool Permutation Reals QArith Qabs Sorting.Sorted Floats.
 From Flocq Require Import Core.
 From Flocq Require Raux.
-From SID Require Import Base F64 SetOps SetMore AShiftR Comb Vec Quat VecF VecExact OrdMax PointLaws FloatId.
+From SID Require Import Base F64 SetOps SetMore AShiftR Comb Vec Quat VecF VecExact OrdMax PointLaws FloatId MatCtor GenC20.
 Import ListNotations.
 
 (* ================= set helpers: for every element type whose == is Leibniz equality (hypothesis eqb_spec) and EVERY map iteration order.
@@ -439,6 +439,71 @@ Proof. exact pi112_close. Qed.
 Print Assumptions C20_runtime_pi_is_pi.
 Close Scope R_scope.
 
+(* ================= NewMatrix3 (row-major constructor), on the models ================= *)
+Open Scope R_scope.
+(* over R: rows are the argument triples, columns every third argument; element (i,j) through the row = through the column *)
+Theorem C20_new_matrix3_is_row_major_over_R : forall a b c d e f g h i,
+  mrow (new_matrix3 a b c d e f g h i) 0 = V a b c /\ mrow (new_matrix3 a b c d e f g h i) 1 = V d e f /\
+  mrow (new_matrix3 a b c d e f g h i) 2 = V g h i.
+Proof. exact new_matrix3_rows. Qed.
+Print Assumptions C20_new_matrix3_is_row_major_over_R.
+Theorem C20_new_matrix3_columns_over_R : forall a b c d e f g h i,
+  mcol (new_matrix3 a b c d e f g h i) 0 = V a d g /\ mcol (new_matrix3 a b c d e f g h i) 1 = V b e h /\
+  mcol (new_matrix3 a b c d e f g h i) 2 = V c f i.
+Proof. exact new_matrix3_cols. Qed.
+Print Assumptions C20_new_matrix3_columns_over_R.
+Theorem C20_matrix_element_by_row_or_by_column_over_R : forall a i j, (i < 3)%nat -> (j < 3)%nat -> mget a i j = vget (mcol a j) i.
+Proof. exact mget_row_col. Qed.
+Print Assumptions C20_matrix_element_by_row_or_by_column_over_R.
+(* applied to the basis vector e_k the matrix returns its k-th column *)
+Theorem C20_matrix_times_basis_vector_is_the_column_over_R : forall a k, mulvec a (basis k) = mcol a k.
+Proof. exact mulvec_basis. Qed.
+Print Assumptions C20_matrix_times_basis_vector_is_the_column_over_R.
+Theorem C20_new_matrix3_times_basis_vectors_over_R : forall a b c d e f g h i,
+  mulvec (new_matrix3 a b c d e f g h i) (V 1 0 0) = V a d g /\ mulvec (new_matrix3 a b c d e f g h i) (V 0 1 0) = V b e h /\
+  mulvec (new_matrix3 a b c d e f g h i) (V 0 0 1) = V c f i.
+Proof. exact new_matrix3_basis. Qed.
+Print Assumptions C20_new_matrix3_times_basis_vectors_over_R.
+Theorem C20_product_columns_are_images_of_columns_over_R : forall a b k, mcol (mmul a b) k = mulvec a (mcol b k).
+Proof. exact mcol_mmul. Qed.
+Print Assumptions C20_product_columns_are_images_of_columns_over_R.
+Theorem C20_product_element_is_row_times_column_over_R : forall a b i j, (i < 3)%nat -> (j < 3)%nat ->
+  mget (mmul a b) i j = vdot (mrow a i) (mcol b j).
+Proof. exact mget_mmul. Qed.
+Print Assumptions C20_product_element_is_row_times_column_over_R.
+(* what must not change: swapping two unequal arguments (here: transposing) gives a different matrix *)
+Theorem C20_new_matrix3_argument_order_matters_over_R : forall a b c d e f g h i, b <> d ->
+  new_matrix3 a b c d e f g h i <> new_matrix3 a d g b e h c f i.
+Proof. exact new_matrix3_transposed_differs. Qed.
+Print Assumptions C20_new_matrix3_argument_order_matters_over_R.
+(* binary64: reading the columns back is bit-exact by construction (any entries) ... *)
+Theorem C20_float_new_matrix3_columns : forall a b c d e f g h i,
+  fmcol (fnew_matrix3 a b c d e f g h i) 0 = FV a d g /\ fmcol (fnew_matrix3 a b c d e f g h i) 1 = FV b e h /\
+  fmcol (fnew_matrix3 a b c d e f g h i) 2 = FV c f i.
+Proof. exact fnew_matrix3_cols. Qed.
+Print Assumptions C20_float_new_matrix3_columns.
+(* ... and MulVec of a basis vector returns the column for ALL FINITE entries, as real values. Guard: with an infinite or NaN entry
+   0 * Inf = NaN spoils the sum; a -0 entry may come back as +0 (so: values, not bit patterns). *)
+Theorem C20_float_matrix_times_basis_vector_is_the_column : forall a k, (k < 3)%nat -> finm a -> veqR (fmulvec a (fbasis k)) (fmcol a k).
+Proof. exact fmulvec_basis. Qed.
+Print Assumptions C20_float_matrix_times_basis_vector_is_the_column.
+Theorem C20_float_new_matrix3_times_basis_vectors : forall a b c d e f g h i, finm (fnew_matrix3 a b c d e f g h i) ->
+  veqR (fmulvec (fnew_matrix3 a b c d e f g h i) (FV 1 0 0)) (FV a d g) /\
+  veqR (fmulvec (fnew_matrix3 a b c d e f g h i) (FV 0 1 0)) (FV b e h) /\
+  veqR (fmulvec (fnew_matrix3 a b c d e f g h i) (FV 0 0 1)) (FV c f i).
+Proof. exact fnew_matrix3_basis. Qed.
+Print Assumptions C20_float_new_matrix3_times_basis_vectors.
+
+(* ================= the threshold consts.Minima is the one regenerated from the Go source ================= *)
+(* Quat.minima (the real threshold of the fallback test `cos+1 < Minima` and of the second-axis test, used by every C20_rotation_* theorem)
+   is the generated decimal constant, and VecF.c_minima (the binary64 threshold of the executable model) is the float nearest to it:
+   editing consts.Minima in the Go source breaks this theorem (through GenEqConst.gen_Minima_eq). *)
+Theorem C20_generated_Minima_is_the_model_threshold :
+  minima = dec2R Generated.Minima /\ fin c_minima /\ Rabs (rv c_minima - minima) <= / IZR (2 ^ 87).
+Proof. exact minima_generated_both. Qed.
+Print Assumptions C20_generated_Minima_is_the_model_threshold.
+Close Scope R_scope.
+
 (* ================= non-vacuity ================= *)
 Close Scope Q_scope.
 Close Scope R_scope.
@@ -470,3 +535,7 @@ Example C20_nonvacuous_generic_rotation : nonzero (V 1 0 0) /\ nonzero (V 0 1 0)
 Proof. exact generic_case_inhabited. Qed.
 Example C20_nonvacuous_integer_floats : ib K 3%float 3 /\ ib K (-7)%float (-7).
 Proof. exact three_is_int. Qed.
+Example C20_nonvacuous_new_matrix3 :
+  (mulvec (new_matrix3 1 2 3 4 5 6 7 8 9) (V 0 1 0) = V 2 5 8 /\ mget (new_matrix3 1 2 3 4 5 6 7 8 9) 1 2 = 6 /\
+   new_matrix3 1 2 3 4 5 6 7 8 9 <> new_matrix3 1 4 7 2 5 8 3 6 9)%R.
+Proof. exact new_matrix3_example. Qed.
